@@ -23,8 +23,9 @@ theorem pin_fileReaderGet : fileReaderGet = [
 /-- AbstractReader.getMibVariants (pysmi/reader/base.py) -/
 theorem pin_fileReaderVariants : fileReaderVariants = [
     "if", "call:filenames.append", "if", "call:filenames.append", "call:mibname.upper", "if", "call:filenames.append",
-    "call:mibname.lower", "if", "call:filenames[-1].find", "if", "call:filenames.extend", "call:filenames.append",
-    "call:suffixed.upper", "call:filenames.append", "call:suffixed.lower", "return:value", "call:options.get"] := by decide
+    "call:mibname.lower", "if", "call:mibname.lower", "call:mibname.lower().find", "if", "call:filenames.extend",
+    "call:filenames.append", "call:suffixed.upper", "call:filenames.append", "call:suffixed.lower", "return:value",
+    "call:options.get"] := by decide
 
 /-- ZipReader.getData (pysmi/reader/zipreader.py) -/
 theorem pin_zipReaderGet : zipReaderGet = [
